@@ -144,6 +144,7 @@ pub extern "C" fn tsrun_create_pending_order(
 
     TsRunValueResult::ok(Box::new(TsRunValue {
         inner: RuntimeValue::with_guard(JsValue::Object(marker), marker_guard),
+        c_string: core::cell::OnceCell::new(),
     }))
 }
 
